@@ -5,6 +5,7 @@ import p_stream
 import p_conc
 import p_timing
 import p_lifecycle
+import p_gen
 
 CHECKS = {
     "C01": p_codec.check_C01,
@@ -26,6 +27,7 @@ CHECKS = {
     "C09": p_timing.check_C09,
     "C04": p_stream.check_C04,
     "C13": p_lifecycle.check_C13,
+    "C12": p_gen.check_C12,
 }
 
 
